@@ -65,10 +65,14 @@ func validateMintDenom(i interface{}) error {
 }
 
 func validateRewardCoefficient(i interface{}) error {
-	_, ok := i.(sdk.Dec)
+	v, ok := i.(sdk.Dec)
 
 	if !ok {
 		return fmt.Errorf("invalid parameter type: %T", i)
+	}
+
+	if v.IsNegative() {
+		return fmt.Errorf("reward coefficient cannot be negative: %s", v)
 	}
 
 	return nil
